@@ -667,6 +667,15 @@ def _int_op_assign(it, st, args, ctx):
 def _fn_call(it, st, args, ctx):
     clo = args[0]
     tup = args[1]
+    probe = clo
+    while isinstance(probe, Ptr):
+        probe = st.heap.get(probe.cell, UNINIT) if not probe.path else it.load(st, probe)
+    if probe is UNINIT:
+        # a zero-sized (capture-less) closure is never written by MIR: its identity is in the callee's type
+        m = re.match(r'^<(\{closure@[^}]*\}) as ', ctx.callee)
+        if not m:
+            raise Unsupported('call through an uninitialised callee: ' + ctx.callee)
+        clo = Agg(m.group(1), [])
     return it.call_closure(st, clo, list(tup.fields), ctx)
 
 
